@@ -89,9 +89,7 @@ class LtlAstParserVisitor(LtlParserVisitor):
                 if id_tail:
                     raise RTAMTException('{0} refers to undeclared variable {1} of unknown type'.format(id, id_head))
                 else:
-                    var = float()
-                    self.var_object_dict[id] = var
-                    self.add_var(id)
+                    self.declare_var(id, 'float')
                     logging.warning('The variable {} is not explicitely declared. It is implicitely declared as a '
                                 'variable of type float'.format(id))
 
